@@ -41,7 +41,7 @@ import (
 // package in general. The subsequent sets each describe a binary package that
 // the source tree builds.
 type Control struct {
-	Filename string
+	Filename string `control:"-"`
 
 	Source   SourceParagraph
 	Binaries []BinaryParagraph
